@@ -484,6 +484,28 @@ def ob_constant(ob):
                  replay_fn(PROPERTY, "Constant/R/def", body, key="Constant/R/def"))
 
 
+def ob_constant_int(ob):
+    """x given as an integer (Python int, NumPy integer, integer array): the value is still the constant, not the constant cast to
+    the integer type of x"""
+    fl = install()
+    set_mode("R")
+    k = rvar("value")
+    t = fl.Constant("t", k)
+    label = "Constant/R/integer-x"
+
+    def body(v):
+        return "\n".join([f"t = fl.Constant('t', {lit(v['value'])})",
+                          "rs = [t.membership(3), t.membership(np.int64(-2)), t.membership(np.array([0, 1])), t.membership(np.array([[7]], dtype=np.uint8))]",
+                          "verdict(not all(same(r, np.full(np.shape(r), t.value)) for r in rs), 'Constant with integer x: %r' % (rs,))"])
+
+    rp = replay_fn(PROPERTY, label, body, key=label)
+    for p in ob.paths([], lambda: (t.membership(3), t.membership(np.int64(-2)), t.membership(np.array([0, 1])), t.membership(np.array([[7]], dtype=np.uint8)))):
+        if p.exc is not None:
+            ob.unexpected([], p, label, {"value": k}, rp)
+            continue
+        ob.prove([], p, z3.And(*[all_same(r, [k] * len(elements(r))) for r in p.result]), label, {"value": k}, rp)
+
+
 def ob_discrete(n):
     def run(ob):
         fl = install()
@@ -716,6 +738,7 @@ def _obligations(tier, seed):
     obs.append(("flags/is_monotonic", ob_not_monotonic_flag))
     obs += special_cases()
     obs.append(("Constant/R/def", ob_constant))
+    obs.append(("Constant/R/integer-x", ob_constant_int))
     for n in ((2, 3) if tier == "quick" else (2, 3, 4)):
         obs.append((f"Discrete{n}/R/def", ob_discrete(n)))
     for name in F_BREAKPOINT_TERMS:
